@@ -34,7 +34,7 @@ def gen(rng, tier):
         valid, fault = None, None
         if mode in ("validator", "other-fault"):
             # one fault injected into a configuration; the fault-free twin lets the model tell whether it is the only one
-            pts = [p for p in TG.fault_points(ty, cfg) if (p[1] == "validator") == (mode == "validator")]
+            pts = [p for p in TG.fault_points(ty, cfg) if p[1].startswith("validator") == (mode == "validator")]
             if pts:
                 path, kind, repl = rng.pick(pts)
                 valid, cfg, fault = cfg, TG.replace_at(cfg, path, repl), kind
